@@ -472,8 +472,8 @@ void suite_fault(int tier) {
        m+1 for the others (refused by the front end) */
     for (int x = 0; x < n_xor_shapes; x++) {
         int k = xor_shapes[x][0], m = xor_shapes[x][1], hd = xor_shapes[x][2];
-        if (!tier && rnd(3)) continue;
-        for (int q = 0; q < (tier ? 12 : 3); q++) {
+        /* every table at every tier (two sets each in the quick tier) */
+        for (int q = 0; q < (tier ? 12 : 2); q++) {
             int cnt = hd + (int)rnd(m - hd + 1); uint64_t g = 0; int have = 0;
             while (have < cnt) { int i = (int)rnd(q == 0 ? k : k + m); if (!((g >> i) & 1)) { g |= 1ull << i; have++; } }
             natfail_emit(3, k, m, hd, g);
